@@ -42,10 +42,10 @@ Definition look (fs : fsys) (stop d : rpath) (up : found) : found :=
          else up
        end.
 
-Fixpoint find (fs : fsys) (stop start : rpath) : found :=
+Fixpoint find_spokfile (fs : fsys) (stop start : rpath) : found :=
   match start with
   | [] => look fs stop [] NotFound                       (* parent == start: the filesystem root *)
-  | _ :: parent => look fs stop start (find fs stop parent)
+  | _ :: parent => look fs stop start (find_spokfile fs stop parent)
   end.
 
 (* start and its ancestors, nearest first *)
